@@ -91,6 +91,34 @@ def new_spec(kind, semantics='standard'):
     raise ValueError(kind)
 
 
+# Object histories.  When a check sets HISTORY to a random.Random for the duration of one case, some of the
+# Mon objects created in that case are first put through a *prehistory* that the properties declare harmless:
+# an online monitor is fed a few samples and reset() (C10: "for every sequence of updates fed before it"),
+# an offline monitor first evaluates other data (its result is a function of the specification and the
+# data only).  The prehistory happens just before the first evaluate()/update() of the workload, is not part
+# of the recorded history, and is described in LAST_HISTORY so that a witness can mention it.
+HISTORY = None
+HISTORY_P = 0.15
+LAST_HISTORY = []
+
+
+def begin_case(rng):
+    global HISTORY
+    HISTORY = rng if os.environ.get('RTVERIF_HISTORY', '1') != '0' else None
+    del LAST_HISTORY[:]
+
+
+def end_case():
+    global HISTORY
+    HISTORY = None
+
+
+def _shuffled(h, vals):
+    vals = list(vals)
+    h.shuffle(vals)
+    return vals
+
+
 class Mon(object):
     """One rtamt specification object behind a recording boundary.
 
@@ -104,6 +132,7 @@ class Mon(object):
         self.oid = Mon._next_id[0]
         self.kind = kind
         self.sd = sd
+        self._hist = None
         s = self.spec = new_spec(kind, sd.get('semantics', 'standard'))
         for v in sd.get('vars', ()):
             s.declare_var(v, sd.get('types', {}).get(v, 'float'))
@@ -122,8 +151,67 @@ class Mon(object):
             self.parse()
         if pastify:
             self.pastify()
+        if HISTORY is not None and HISTORY.random() < HISTORY_P:
+            import random
+            self._hist = random.Random(HISTORY.randrange(1 << 30))
+
+    def _prehistory(self, h, method, args):
+        """See HISTORY above.  Never raises; what it did is appended to LAST_HISTORY."""
+        s, what = self.spec, None
+        try:
+            if method == 'evaluate' and len(args) == 1 and isinstance(args[0], dict) and 'time' in args[0]:
+                d = args[0]
+                n = len(d['time'])
+                if n < 1:
+                    return
+                k = h.randint(1, n)
+                d2 = dict((key, (list(col)[:k] if key == 'time' else _shuffled(h, col)[:k])) for key, col in d.items())
+                what = 'evaluate() on %d other samples first' % k
+                s.evaluate(d2)
+            elif method == 'evaluate' and args and all(isinstance(a, (list, tuple)) and len(a) == 2 for a in args):
+                a2 = []
+                for name, samples in args:
+                    samples = [list(x) for x in samples]
+                    vals = _shuffled(h, [x[1] for x in samples])
+                    k = h.randint(1, len(samples)) if samples else 0
+                    a2.append([name, [[samples[i][0], vals[i]] for i in range(k)]])
+                what = 'evaluate() on other signals first'
+                s.evaluate(*a2)
+            elif method == 'update' and len(args) == 2 and isinstance(args[0], (int, float)):
+                t0, ins = args
+                ins = [tuple(x) for x in ins]
+                k = h.randint(1, 5)
+                what = '%d update() calls with other values, then reset()' % k
+                for i in range(k):
+                    s.update(t0 + i, [(nm, val + h.choice([-1.0, 0.0, 1.0, 2.5])) for nm, val in ins])
+                s.reset()
+            elif method == 'update' and args and all(isinstance(a, (list, tuple)) and len(a) == 2 for a in args):
+                a2 = []
+                for name, samples in args:
+                    samples = [list(x) for x in samples]
+                    vals = _shuffled(h, [x[1] + h.choice([-1.0, 0.0, 1.0]) for x in samples])
+                    a2.append([name, [[samples[i][0], vals[i]] for i in range(len(samples))]])
+                what = 'one update() with other values, then reset()'
+                s.update(*a2)
+                s.reset()
+            else:
+                return
+            REC.counts['history:' + method] += 1
+        except Exception as e:
+            REC.counts['history-raised:' + method] += 1
+            what = (what or method) + ' (raised %s)' % type(e).__name__
+            if method == 'update':
+                try:
+                    s.reset()
+                except Exception:
+                    pass
+        if what:
+            LAST_HISTORY.append('object #%d: %s' % (self.oid, what))
 
     def _do(self, method, *args):
+        if self._hist is not None and method in ('evaluate', 'update'):
+            h, self._hist = self._hist, None
+            self._prehistory(h, method, args)
         seq = REC.call(self.oid, method, args)
         try:
             r = getattr(self.spec, method)(*args)
